@@ -59,6 +59,7 @@ def check(ctx):
     # the node list then goes through the C04 machinery
     c04.r04_123(ctx, v)
     c04.r04_4(ctx, v)
+    r05_7(ctx, v)
     # regions and nodes are mutually exclusive and the region result replaces the node list
     ok = isinstance(v.regions_call.targets[0], ast.Name)
     ctx.check(ok, "R05.6", v.run.where(v.regions_call), "the nodes found under the regions become the node list of the --node machinery", key_of(v.run, f"regions-to-nodes:{norm(v.regions_call)}"))
@@ -252,7 +253,13 @@ def r05_3(ctx, g, helpers):
                 if brk and not brk_ok:
                     ctx.violated("R05.3", h.where(loop), "the scan stops early at a node that does not start beyond the region end: later nodes under the region are lost", key_of(h, "early-break"))
                 elif not whole:
-                    partial.append((h, loop))
+                    verdict = skipped_prefix(h, loop, lst, qs)
+                    if verdict == "sound":
+                        ctx.holds("R05.3", h.where(loop), "the scan skips only nodes that start at or before the node holding the region start (clamped bisect on the sorted starts): disjoint intervals left of it end at or before the region start")
+                    elif verdict is None:
+                        partial.append((h, loop))
+                    else:
+                        ctx.violated("R05.3", h.where(loop), verdict, key_of(h, f"skipped-prefix:{norm(loop.iter)}"))
                 else:
                     ctx.holds("R05.3", h.where(loop), "the search examines every indexed node of the contig" + (" (it stops only at a node that starts beyond the region end; the list is sorted by start)" if brk else ""))
         for r in comp:
@@ -262,6 +269,44 @@ def r05_3(ctx, g, helpers):
     if partial and not any(i.verdict == "violated" and i.rule == "R05.3" for i in ctx.instances):
         h, loop = partial[0]
         raise AnalysisError("R05.3", h.where(loop), f"the search scans only `{norm(loop.iter)}`: whether the skipped nodes lie outside the region is not decidable by this analysis")
+
+
+def skipped_prefix(h, loop, lst, qs):
+    """Slice `LIST[lo:]`: 'sound' for lo = max(bisect_right([x[2] for x in LIST], qs) - 1, 0); a violation text for the
+    unclamped form (lo may be -1: the slice [-1:] looks at the last node only); None if not recognised."""
+    it = loop.iter
+    if not (isinstance(it, ast.Subscript) and isinstance(it.slice, ast.Slice) and norm(it.value) == lst and it.slice.upper is None and it.slice.step is None and isinstance(it.slice.lower, ast.Name)):
+        return None
+    lo = it.slice.lower.id
+    defs = [st for st in walk_own(h.node) if isinstance(st, ast.Assign) and norm(st.targets[0]) == lo]
+    if len(defs) != 1:
+        return None
+    v = defs[0].value
+
+    def is_bisect_minus1(e):
+        if isinstance(e, ast.BinOp) and isinstance(e.op, ast.Sub) and const_value(e.right) == 1 and isinstance(e.left, ast.Call) and norm(e.left.func).split(".")[-1] == "bisect_right" and len(e.left.args) == 2:
+            keys, q = e.left.args
+            ksrc = norm(keys)
+            if isinstance(keys, ast.Name):
+                kd = [st for st in walk_own(h.node) if isinstance(st, ast.Assign) and norm(st.targets[0]) == keys.id]
+                ksrc = norm(kd[0].value) if len(kd) == 1 else ksrc
+            m_ = re_match_starts(ksrc, lst)
+            return m_ and norm(q) == qs
+        return False
+
+    if isinstance(v, ast.Call) and isinstance(v.func, ast.Name) and v.func.id == "max" and len(v.args) == 2:
+        a, b = v.args
+        if (const_value(a) == 0 and is_bisect_minus1(b)) or (const_value(b) == 0 and is_bisect_minus1(a)):
+            return "sound"
+    if is_bisect_minus1(v):
+        return f"the scan starts at `{norm(v)}`, which is -1 when the region starts before the first aligned node of the contig: the slice then examines only the last node and the nodes under the region are lost"
+    return None
+
+
+def re_match_starts(src, lst):
+    import re as _re
+
+    return bool(_re.fullmatch(rf"\[(\w+)\[2\] for \1 in {_re.escape(lst)}\]", src))
 
 
 def order(env):
@@ -370,3 +415,20 @@ def r05_5(ctx, funcs, g):
                         ctx.violated("R05.5", f.where(c), f"`{norm(c)}` orders region bounds as strings ('10' < '5'): bounds must be compared after int()", key_of(f, f"string-order:{norm(c)}"))
         ctx.holds("R05.5", f.where(), f"no ordering comparison on the {len(tainted)} string-valued names derived from the region text", nontrivial=bool(tainted))
     ctx.require_count("R05.5", n, 1, g.where(), "format expressions in the region functions")
+
+
+def r05_7(ctx, v):
+    """Command line: -n/--node and -r/--region may be given several times and accumulate (action='append')."""
+    aa = v.mod.funcs.get("add_arguments")
+    if aa is None:
+        raise AnalysisError("R05.7", v.mod.relpath, "add_arguments vanished")
+    ctx.analysed_func(aa)
+    seen = {}
+    for c in walk_own(aa.node):
+        if isinstance(c, ast.Call) and c.args and any(const_value(a) in ("--region", "--node") for a in c.args):
+            kw = {k.arg: k.value for k in c.keywords}
+            which = "regions" if any(const_value(a) == "--region" for a in c.args) else "nodes"
+            seen[which] = c
+            ok = const_value(kw.get("action"), None) == "append" and norm(kw.get("default")) == "[]" and const_value(kw.get("dest"), None) == which and "nargs" not in kw
+            ctx.check(ok, "R05.7", aa.where(c), f"the option for {which} accumulates every occurrence (action='append', default [], dest='{which}'): `-r R1 -r R2` searches both regions", key_of(aa, f"argparse:{which}:{ {k: norm(x) for k, x in kw.items() if k in ('action', 'nargs', 'default', 'dest')} }"))
+    ctx.require_count("R05.7", len(seen), 2, aa.where(), "--node and --region options")
